@@ -45,4 +45,9 @@ def run(ctx):
                 "parked free list is otherwise lost when the next session zeroes the local state.")
     nh = efreelist.check_guard_handover(ctx, F)
     ctx.floor("E-FREELIST.handover", "session-end hand-over sites", nh, 1)
+    ctx.explain("E-FREELIST.mark: SharedStoreState::allocated (the slot array's high-water mark; chunks below it belong to "
+                "threads that may still be filling them) is written by get_slot_from_shared only, with a value computed by an "
+                "addition: it never moves back.")
+    nm = efreelist.check_allocation_mark(ctx, F)
+    ctx.floor("E-FREELIST.mark", "writers of the allocation mark", nm, 1)
     ctx.not_decided = "validity of handles after failure, success on retry, panics other than AllocResult unwraps"
